@@ -117,3 +117,43 @@ pub fn reduce(input: &Value) -> Out {
     }
     Out::new(json!({"ok": "T", "hist": hist}), evals, 1)
 }
+
+/// History independence of matching: the same patterns x names matrix evaluated
+/// pattern-major (each pattern against all names) and name-major (each name against all
+/// patterns, the order a package scan uses), through Pattern and through the standalone
+/// Dewey matcher.  Compiled patterns are reused across the whole matrix.
+pub fn patmatrix(input: &Value) -> Out {
+    let ps: Vec<String> = input["ps"].as_array().unwrap().iter().map(to_string).collect();
+    let ns: Vec<String> = input["ns"].as_array().unwrap().iter().map(to_string).collect();
+    let pats: Vec<Option<Pattern>> = ps.iter().map(|p| Pattern::new(p).ok()).collect();
+    let dews: Vec<Option<Dewey>> = ps.iter().map(|p| if p.contains(['{', '}']) { None } else { Dewey::new(p).ok() }).collect();
+    let cell = |p: &Option<Pattern>, n: &str| tf(p.as_ref().map(|p| p.matches(n)).unwrap_or(false));
+    let dcell = |d: &Option<Dewey>, n: &str| tf(d.as_ref().map(|d| d.matches(n)).unwrap_or(false));
+    let mut pm = vec![vec![json!("F"); ns.len()]; ps.len()];
+    let mut nm = pm.clone();
+    let mut dp = pm.clone();
+    let mut dn = pm.clone();
+    for (i, p) in pats.iter().enumerate() {
+        for (j, n) in ns.iter().enumerate() {
+            pm[i][j] = cell(p, n);
+        }
+    }
+    for (j, n) in ns.iter().enumerate() {
+        for (i, p) in pats.iter().enumerate() {
+            nm[i][j] = cell(p, n);
+        }
+    }
+    for (j, n) in ns.iter().enumerate() {
+        for (i, d) in dews.iter().enumerate() {
+            dn[i][j] = dcell(d, n);
+        }
+    }
+    for (i, d) in dews.iter().enumerate() {
+        for (j, n) in ns.iter().enumerate() {
+            dp[i][j] = dcell(d, n);
+        }
+    }
+    let evals = (4 * ps.len() * ns.len()) as u64;
+    let nt = pm.iter().flatten().filter(|c| **c == "T").count() as u64;
+    Out::new(json!({"ok": pats.iter().map(|p| tf(p.is_some())).collect::<Vec<_>>(), "pm": pm, "nm": nm, "dp": dp, "dn": dn}), evals, (nt > 0) as u64)
+}
